@@ -72,10 +72,10 @@ func AddRepository(ctx context.Context, url string) error {
 	if err := os.MkdirAll(repositoriesDir, 0755); err != nil {
 		return fmt.Errorf("couldn't create plugin repositories directory: %w", err)
 	}
-	verifhook.BeforeWrite("repo.before_write", filepath.Join(repositoriesDir, repo.Slug), data)
 	// Every file in repositoriesDir is parsed as a repository entry, so the temporary file lives
 	// next to the directory and is renamed into it once complete.
 	tmpFile := filepath.Join(config.OctosqlDataDir, ".repository-"+repo.Slug+".tmp")
+	verifhook.BeforeWrite("repo.before_write", tmpFile, data)
 	if err := os.WriteFile(tmpFile, data, 0644); err != nil {
 		return fmt.Errorf("couldn't write repository entry: %w", err)
 	}
